@@ -4,7 +4,7 @@ CONSTANTS
   GapsOf <- MCGaps
   YsOf <- MCYs
   Y2Of <- MCY2
-  OffSet <- MCOff
+  OffsOf <- MCOff
   MulSet <- MCMul
   Q = 8
   Emit = TRUE
